@@ -40,103 +40,7 @@ def run(ctx) -> None:
 
 
 # ------------------------------------------------------------------------------- DNF of raising conditions
-class Atom:
-    def __init__(self, expr: ast.AST, pol: bool):
-        self.expr, self.pol = expr, pol
-        self.cmp: Optional[Cmp] = None
-        self.kind = "other"
-        self.inner: Optional[Cmp] = None
-        self.agg = ""
-        e = expr
-        if isinstance(e, ast.Compare) and len(e.ops) == 1 and isinstance(e.ops[0], (ast.Lt, ast.LtE, ast.Gt, ast.GtE, ast.Eq, ast.NotEq)):
-            self.cmp = to_cmp(e, pol)
-            self.kind = "cmp"
-            self.raises_on_nan = (not pol) if not isinstance(e.ops[0], ast.NotEq) else pol
-        elif isinstance(e, ast.Compare) and len(e.ops) == 1 and isinstance(e.ops[0], (ast.Is, ast.IsNot)) and isinstance(e.comparators[0], ast.Constant) and e.comparators[0].value is None:
-            self.kind = "none"
-            self.var = show(e.left)
-            self.is_none = (isinstance(e.ops[0], ast.Is)) == pol
-            self.raises_on_nan = False
-        elif isinstance(e, ast.Call) and call_fname(e) == "isinstance" and len(e.args) == 2:
-            self.kind = "isinstance"
-            self.var = show(e.args[0])
-            t = e.args[1]
-            self.types = sorted(show(x) for x in (t.elts if isinstance(t, ast.Tuple) else [t]))
-            self.raises_on_nan = False
-        elif isinstance(e, ast.Call) and call_fname(e) in ("any", "all") and (e.args or isinstance(e.func, ast.Attribute)):
-            inner = e.args[0] if e.args else e.func.value
-            self.kind = "agg"
-            self.agg = call_fname(e)
-            self.inner_expr = inner
-            self.raises_on_nan = False
-            if isinstance(inner, ast.Compare) and len(inner.ops) == 1:
-                # any(x < 0) True : raises when some element satisfies; NaN elements do not
-                self.inner = to_cmp(inner, True)
-                self.raises_on_nan = (self.agg == "all" and not pol)
-            elif isinstance(inner, ast.Call) and call_fname(inner) in ("isfinite", "isnan", "isinf"):
-                self.inner_fn = call_fname(inner)
-        elif isinstance(e, ast.Name) or isinstance(e, ast.Attribute):
-            self.kind = "truthy"
-            self.var = show(e)
-            self.raises_on_nan = False
-        else:
-            self.raises_on_nan = False
-
-    def __repr__(self):
-        return f"{'' if self.pol else 'not '}{show(self.expr)[:50]}"
-
-
-def dnf(e: ast.AST, pol: bool) -> List[List[Atom]]:
-    if isinstance(e, ast.UnaryOp) and isinstance(e.op, ast.Not):
-        return dnf(e.operand, not pol)
-    if isinstance(e, ast.BoolOp):
-        parts = [dnf(v, pol) for v in e.values]
-        union = (isinstance(e.op, ast.Or) and pol) or (isinstance(e.op, ast.And) and not pol)
-        if union:
-            return [t for p in parts for t in p]
-        out = []
-        for combo in itertools.product(*parts):
-            out.append([a for term in combo for a in term])
-        return out
-    if isinstance(e, ast.Compare) and len(e.ops) > 1:
-        pieces = []
-        left = e.left
-        for op, right in zip(e.ops, e.comparators):
-            pieces.append(ast.Compare(left=left, ops=[op], comparators=[right]))
-            left = right
-        return dnf(ast.BoolOp(op=ast.And(), values=pieces), pol)
-    return [[Atom(e, pol)]]
-
-
-def raising_terms(fv, before: int, exc: str = "ValueError"):
-    """[(term atoms, guard node, raise class)] for every raising guard that dominates `before`."""
-    out = []
-    for n, test, pol_raise, r in fv.raising_guards():
-        chain = fv.controlling(n.id, skip_raising=True)
-        # a nested guard covers `before` when the outermost enclosing test does (it is then reached whenever its
-        # enclosing conditions hold)
-        anchor = n.id
-        for d, _ in chain:
-            if fv.cfg.dominates(d, anchor):
-                anchor = d
-        if not fv.cfg.dominates(anchor, before) or not fv.cfg.reaches(n.id, before):
-            continue
-        rt = fv.res.resolve(test, n.id)
-        cls = raise_class(fv, r)[0]
-        # conditions under which the guard is reached at all (nested ifs)
-        ctrl = []
-        unknown_ctrl = False
-        for d, pol in chain:
-            dd = dnf(fv.res.resolve(fv.cfg.nodes[d].ast, d), pol)
-            if len(dd) == 1:
-                ctrl += dd[0]
-            else:
-                unknown_ctrl = True
-        if unknown_ctrl:
-            continue
-        for term in dnf(rt, pol_raise):
-            out.append((ctrl + term, n, cls))
-    return out
+from ..guards import Atom, dnf, raising_terms  # noqa: E402,F401
 
 
 def P(name: str) -> Poly:
